@@ -34,7 +34,10 @@ def make_class(index, names):
         src += "    self.%s = %s\n" % (n, n)
     ns = {}
     exec(src, ns)
-    return type("K%d" % index, (), {"__init__": ns["__init__"]})
+    cls = type("K%d" % index, (), {"__init__": ns["__init__"]})
+    cls.__module__ = "__main__"          # picklable by reference
+    globals()["K%d" % index] = cls
+    return cls
 
 
 def recursion_cache():
@@ -240,7 +243,12 @@ class World:
         elif k == "del":
             delattr(obj, op[2])
         elif k == "copy":
-            twin = obj.copy()
+            how = op[2] if len(op) > 2 else "deep"
+            if how == "pickle":
+                import pickle
+                twin = pickle.loads(pickle.dumps(obj))
+            else:
+                twin = obj.copy()
             first = len(self.objs)
             self.register_graph(twin)
             extra["new"] = [{"kind": "tuple" if isinstance(o, TuplePrior) else "coll" if isinstance(o, Collection) else "model",
